@@ -141,6 +141,11 @@ def cross_process(rep, fsdbh, rng, n):
             keys = "keytab 6b31 6b32"
             p1 = ["case p1 dir=%s" % base, keys] + ["@1 set 0 %d %d 3 s" % (rng.randint(1, 2), v + 1) for v in range(nw)] + ["end"]
             n0 = rng.randint(0, 3)
+            if i % 2 == 1:
+                # one record per key on disk, the overwritten key holding the newest persisted number, and nothing that
+                # moves the fresh process's counter before the database is opened: the counter comes from Load alone
+                p1 = ["case p1 dir=%s" % base, keys, "@1 set 0 2 1 3 s", "@1 set 0 1 2 3 s", "end"]
+                n0 = 0
             p2 = ["case p2 dir=%s" % base, keys]
             p2 += ["@0 set 0 1 %d 2 s" % (100 + j) for j in range(n0)] or ["@0 get 0 1 g"]
             body2 = ["get 0 1 g", "get 0 2 g", "set 0 1 %d 5 s" % (200 + i), "get 0 1 g", "reopen", "get 0 1 g", "get 0 2 g",
@@ -187,7 +192,7 @@ def run(rep):
     def ninst_of(c):
         return 1 + max(int(l.split()[0][1:]) for l in c.split("\n") if l.startswith("@"))
     _, bad_multi = check_multi(rep, fsdbh, multi, ninst_of)
-    runs, bad_cross = cross_process(rep, fsdbh, rng, 6 if rep.tier == "quick" else 60)
+    runs, bad_cross = cross_process(rep, fsdbh, rng, 8 if rep.tier == "quick" else 60)
     rep.coverage.update(multi_instance_cases=len(multi), multi_instance_mismatches=bad_multi,
                         cross_process_runs=len(runs), cross_process_mismatches=bad_cross,
                         cross_process_sample=runs[:1],
